@@ -152,6 +152,61 @@ func (w *World) locksetObligations() []*Obligation {
 	for _, k := range keys {
 		out = append(out, w.locksetFunc(w.funcs[k], g)...)
 	}
+	out = append(out, w.fieldCoverObligations(g)...)
+	return out
+}
+
+// fieldCoverObligations: `fieldcover T` - every field of struct T is classified: guarded by a mutex, immutable,
+// init-only, owner-guarded, explicitly not claimed (`noclaim ... because <reason>`), or a synchronisation primitive.
+// An unclassified field is a failed obligation: shared state nobody has decided how it is protected.
+func (w *World) fieldCoverObligations(g *guardInfo) []*Obligation {
+	var out []*Obligation
+	for _, gd := range w.cs.Guards {
+		if gd.Kind != "fieldcover" {
+			continue
+		}
+		for _, tn := range gd.Fields {
+			i := strings.LastIndex(tn, ".")
+			tp := w.tpkgs[tn[:i]]
+			if tp == nil || tp.Scope().Lookup(tn[i+1:]) == nil {
+				out = append(out, &Obligation{Name: "fieldcover:" + shortKey(tn), Fn: "fieldcover", Kind: "fieldcover", Tags: []string{"C20"}, Goal: "false", Src: "fieldcover names an unknown type " + tn, Status: "sat", Solver: "syntactic"})
+				continue
+			}
+			st, ok := tp.Scope().Lookup(tn[i+1:]).Type().Underlying().(*types.Struct)
+			if !ok {
+				continue
+			}
+			for fi := 0; fi < st.NumFields(); fi++ {
+				f := st.Field(fi)
+				cls := tn + "." + f.Name()
+				how := ""
+				switch {
+				case g.by[cls] != "":
+					how = "guarded by " + g.by[cls]
+				case g.immut[cls]:
+					how = "immutable"
+				case g.init[cls] != nil:
+					how = "init-only"
+				case g.none[cls]:
+					how = "not claimed"
+				case g.owner[cls][0] != "":
+					how = "owner-guarded"
+				default:
+					ft := types.TypeString(f.Type(), nil)
+					if strings.HasPrefix(ft, "sync.") {
+						how = "synchronisation primitive " + ft
+					}
+				}
+				o := &Obligation{Name: "fieldcover:" + shortKey(cls), Fn: "fieldcover", Kind: "fieldcover", Tags: []string{"C20"}, Goal: "true", Src: shortKey(cls) + " is classified: " + how, Status: "trivial"}
+				if how == "" {
+					o.Status, o.Solver, o.Goal = "sat", "syntactic", "false"
+					o.Src = shortKey(cls) + " is shared state without a declared protection (guarded / immutable / initonly / noclaim)"
+					o.Output = "unclassified field"
+				}
+				out = append(out, o)
+			}
+		}
+	}
 	return out
 }
 
